@@ -790,6 +790,15 @@ func (b *DijkstraTransactionBody) UnmarshalCBOR(cborData []byte) error {
 	return nil
 }
 
+func (b *DijkstraTransactionBody) MarshalCBOR() ([]byte, error) {
+	// Return the original CBOR if available so that re-encoding a decoded
+	// object reproduces the exact bytes it was decoded from
+	if b.Cbor() != nil {
+		return b.Cbor(), nil
+	}
+	return cbor.EncodeGeneric(b)
+}
+
 func checkMultiAssetDuplicateKeys[T int64 | uint64 | *big.Int](
 	assets *common.MultiAsset[T],
 ) error {
